@@ -96,6 +96,18 @@ def scan(w):
                     break
 
 
+def parent_pointer_cycle(w):
+    """is there an object whose stored _parent chain returns to itself?"""
+    for ob in w.objs:
+        seen, cur = set(), ob
+        while cur is not None and id(cur) not in seen:
+            seen.add(id(cur))
+            cur = getattr(cur, "_parent", None)
+        if cur is not None:
+            return True
+    return False
+
+
 class Oracle:
     def __init__(self, ck_fail, case, scene_flags=frozenset()):
         self.fail = ck_fail
@@ -109,6 +121,10 @@ class Oracle:
             fp = w.oid(w.objs[o[1][0]]._parent)
         kinds = [w.kind(i) for i in range(len(w.objs))]
         self.step_flags = set() if w.dead else ec.guard_flags(w.adjacency(), kinds, o, fp)
+        if o[0] == "GroupLayers" and o[1] and not w.dead and parent_pointer_cycle(w):
+            # the AssertionError message of the late refusal prints the group (repr -> bbox -> is_visible follows
+            # _parent): on a _parent cycle (stale _parent, F-C09-2 / F-C10-1) that raises RecursionError instead
+            self.step_flags.add("parent-pointer-cycle")
         if o[0] == "GroupLayers" and o[1] and not w.dead:
             p = o[2] if o[2] is not None else (fp if isinstance(fp, int) and fp >= 0 else None)
             if p is not None and 0 <= p < len(kinds) and kinds[p] != ec.KPIXEL and "group-layers-parent-inside" not in self.step_flags:
@@ -165,7 +181,8 @@ core.KNOWN_CLASSIFIERS["F-C10-3"] = lambda f: (
 core.KNOWN_CLASSIFIERS["F-C10-4"] = lambda f: (
     f["kind"] == "refused-changed" and f["input"]["op"][0] == "GroupLayers"
     and bool({"group-layers-parent-inside", "group-layers-parent-in-clips"} & set(f["input"].get("step_flags", [])))
-    and f["input"]["outcome"] == [4])
+    and (f["input"]["outcome"] == [4]
+         or (f["input"]["outcome"] == [8] and "parent-pointer-cycle" in f["input"].get("step_flags", []))))
 core.KNOWN_CLASSIFIERS["F-C10-5"] = lambda f: (
     f["kind"] == "nonlayer-not-refused" and f["input"].get("iterable_of_layers") is True
     and f["input"].get("method") in ("insert", "setitem"))
@@ -334,7 +351,7 @@ def run():
     for c, (dg, fails, stats, guarded) in zip(cases, res):
         cc.append((c, dg))
         nguard += guarded
-        for kind, inp, obs, exp in fails:
+        for kind, inp, obs, exp in ec.shrink_failures(ck, c, fails, lambda c: _work(c)[1]):
             ck.fail(kind, inp, obs, exp)
         for key, v in stats.items():
             ck.count(key, v)
